@@ -1,4 +1,5 @@
 """C05 — global timestamp order under the grace period: structural conditions (DESIGN §4 C05)."""
+import re
 from qlib import (AnalysisBroken, strip, isnode, walk, is_call, norm_cmp, var_ref, is_null, const_val, short, call_obj,
                   expr_key, field_name, is_this_field)
 from rules.common import (core_and_neg, tnode, other, cpos, npos, branches_on_call, flatten, in_subtree, loops_enclosing,
@@ -35,6 +36,11 @@ def run(ctx):
         r4(ctx, facts, cfg)
         r5(ctx, facts, cfg)
         r5_clock_table(ctx, facts, cfg)
+        options_read_only(ctx, facts, cfg)
+        # the set of threads whose oldest statements are compared is every thread that logs (registration / cache reload, = C20.R5)
+        from rules import c20
+        from rules.c09 import Renamed
+        c20.r5(Renamed(ctx, "C20.R5", "C05.R6"), facts, cfg)
         from rules import c02
         bn = {m.base: m for m in facts.fns if m.config == cfg and m.cls == c02.CLS and not m.rec.get("ctor") and not m.rec.get("dtor")}
         if "empty" not in bn:
@@ -280,6 +286,37 @@ def r5(ctx, facts, cfg):
         ctx.ob("C05.R5", site, ok,
                "the clock is read before the reservation / blocking loop and never afterwards; the header carries that value "
                "(clock sources: %d)" % len(clock_srcs), fn=f)
+
+
+def options_read_only(ctx, facts, cfg):
+    """R1d: the grace period (like every other backend option) is what the user configured for the whole life of the backend: no
+    backend function writes a member of _options after they were taken over at start-up"""
+    writers = []
+    n = 0
+    for f in facts.fns:
+        if f.config != cfg or not (f.short.startswith(BW) or (f.rec.get("parent") or "").startswith("quill::detail::BackendWorker::")):
+            continue
+        for x in f.walk():
+            tgt = None
+            if x["k"] in ("BinaryOperator", "CompoundAssignOperator") and x.get("op", "").endswith("=") and x.get("op") not in ("==", "!=", "<=", ">="):
+                tgt = x["lhs"]
+            elif x["k"] == "CXXOperatorCallExpr" and re.search(r"operator(=|\+=|-=|\*=|/=)$", x.get("callee") or "") and x.get("args"):
+                tgt = x["args"][0]
+            elif x["k"] == "UnaryOperator" and x.get("op") in ("++", "--"):
+                tgt = x["sub"]
+            if tgt is None:
+                continue
+            t = strip(tgt, casts=True)
+            if isnode(t) and t["k"] == "MemberExpr" and is_this_field(t.get("base"), "_options") and f.base not in ("_init", "init"):
+                writers.append("%s writes _options.%s at %s" % (f.base, t.get("mname"), x["loc"]))
+            if is_this_field(t, "_options"):
+                n += 1
+                if f.base not in ("_init", "init", "run"):
+                    writers.append("%s replaces _options at %s" % (f.base, x["loc"]))
+    ctx.floor("C05.R1d", "places where the backend takes over the user's options", n, 1)
+    ctx.ob("C05.R1d", "BackendWorker:_options-read-only", not writers,
+           "the options — among them log_timestamp_ordering_grace_period — are taken over once at start-up and never written by the "
+           "backend afterwards — start-up (_init) may normalise them (%s)" % ("; ".join(writers) or "no writer"), loc="backend/BackendWorker.h")
 
 
 def clock_edges(g, enum_suffix):
